@@ -85,6 +85,18 @@ func writeSMT(o *Obligation, path string, axioms []*Term, forCVC5 bool, getValue
 			visit(n)
 		}
 	}
+	// ground instances of "a store outside [o, o+n) keeps bytes$(A, o, n)"
+	var scan []*Term
+	scan = append(scan, terms...)
+	for _, d := range o.Defs {
+		if needed[d.Name] {
+			scan = append(scan, d.T)
+		}
+	}
+	insts := bytesStoreInstances(scan)
+	for _, t := range insts {
+		collectSyms(t, bound, syms, sorts)
+	}
 	usesBV := false
 	for _, si := range syms {
 		if si.res.IsBV() || strings.Contains(string(si.res), "BitVec") {
@@ -123,6 +135,9 @@ func writeSMT(o *Obligation, path string, axioms []*Term, forCVC5 bool, getValue
 	for _, a := range axioms {
 		fmt.Fprintf(&sb, "(assert %s)\n", a.String())
 	}
+	for _, a := range insts {
+		fmt.Fprintf(&sb, "(assert %s)\n", a.String())
+	}
 	seenH := map[string]bool{}
 	for _, h := range o.Hyps {
 		hs := h.String()
@@ -156,6 +171,83 @@ func writeSMT(o *Obligation, path string, axioms []*Term, forCVC5 bool, getValue
 }
 
 var builtinUF = map[string]string{}
+
+// bytesStoreInstances: for every bytes$(X, o, n) and every store(A0, i, v) on a byte array in the VC,
+// (X = store(A0,i,v) and i outside [o,o+n)) => bytes$(X,o,n) = bytes$(A0,o,n); iterated to a small depth.
+func bytesStoreInstances(terms []*Term) []*Term {
+	type bt struct{ x, o, n *Term }
+	var bys []bt
+	seenB := map[string]bool{}
+	var stores []*Term
+	seenS := map[string]bool{}
+	var walk func(t *Term, inQ bool)
+	walk = func(t *Term, inQ bool) {
+		if t.Op == "forall" || t.Op == "exists" {
+			inQ = true
+		}
+		if !inQ {
+			if t.Op == "app" && t.Name == "bytes$" {
+				k := t.String()
+				if !seenB[k] {
+					seenB[k] = true
+					bys = append(bys, bt{t.Args[0], t.Args[1], t.Args[2]})
+				}
+			}
+			if t.Op == "store" {
+				_, e := t.Sort.ArrParts()
+				if !e.IsArr() {
+					k := t.String()
+					if !seenS[k] {
+						seenS[k] = true
+						stores = append(stores, t)
+					}
+				}
+			}
+		}
+		for _, a := range t.Args {
+			walk(a, inQ)
+		}
+	}
+	for _, t := range terms {
+		walk(t, false)
+	}
+	if len(bys) == 0 || len(stores) == 0 {
+		return nil
+	}
+	var out []*Term
+	for round := 0; round < 4; round++ {
+		var nb []bt
+		for _, b := range bys {
+			for _, st := range stores {
+				if st.Sort != b.x.Sort {
+					continue
+				}
+				a0, i := st.Args[0], st.Args[1]
+				var outside *Term
+				if i.Sort.IsBV() {
+					outside = Or(bvCmp("bvslt", i, b.o), bvCmp("bvsle", bvBin("bvadd", b.o, b.n), i))
+				} else {
+					outside = Or(ILt(i, b.o), ILe(IAdd(b.o, b.n), i))
+				}
+				nt := App("bytes$", SBytes, a0, b.o, b.n)
+				out = append(out, Implies(And(Eq(b.x, st), outside), Eq(App("bytes$", SBytes, b.x, b.o, b.n), nt)))
+				k := nt.String()
+				if !seenB[k] {
+					seenB[k] = true
+					nb = append(nb, bt{a0, b.o, b.n})
+				}
+			}
+		}
+		if len(out) > 400 {
+			break
+		}
+		bys = nb
+		if len(bys) == 0 {
+			break
+		}
+	}
+	return out
+}
 
 type solverSpec struct {
 	name string
